@@ -454,12 +454,9 @@ def tables_ok(h, g):
                forall([t], imp(rng(t, 0, it.J), z3.And(h.at(X.by_job, t) > X.by_job, h.at(X.by_job, t) < X.removed)),
                       patterns=[h.at(X.by_job, t)])))]
     out += table(X.by_type, len(NODE_TYPES), "type") + table(X.by_job, it.J, "job") + table(X.by_machine, it.NM, "machine")
-    # rows of different tables are different lists
-    for (Ta, na, a), (Tb, nb, b) in ((( X.by_type, len(NODE_TYPES), "type"), (X.by_job, it.J, "job")),
-                                     ((X.by_type, len(NODE_TYPES), "type"), (X.by_machine, it.NM, "machine")),
-                                     ((X.by_job, it.J, "job"), (X.by_machine, it.NM, "machine"))):
-        out.append((f"T-{a}-{b}-disjoint", forall([t, t2], imp(z3.And(rng(t, 0, na), rng(t2, 0, nb)), h.at(Ta, t) != h.at(Tb, t2)),
-                                                  patterns=[z3.MultiPattern(h.at(Ta, t), h.at(Tb, t2))])))
+    # (rows of different tables are different lists: a consequence of T-layout -- each table's rows lie between that
+    # table and the next one -- and no longer stated with a quantifier over pairs of rows, which instantiated
+    # quadratically)
     return out
 
 
@@ -723,7 +720,7 @@ class GraphAddOperationNodes(Contract):
     _NODES = ["nodes-so-far", "rows-so-far", "job", "same-graph-object", "inst-refs", "inst-jobs", "inst-ops", "inst-cum",
               "inst-index-bound", "inst-index-order", "operations-numbered", "fields", "gets-the-next-id-and-is-appended", "listed-under-its-type",
               "operation-nodes-listed-under-their-job", "G-shape", "G-node-ids", "T-sizes", "T-job-rows", "T-type-rows",
-              "T-job-rows-distinct", "T-type-rows-distinct", "T-type-job-disjoint"]
+              "T-job-rows-distinct", "T-type-rows-distinct", "T-layout"]
     _MROWS = ["machine-rows-so-far", "nodes-so-far", "job", "same-graph-object", "inst-refs", "inst-jobs", "inst-ops",
               "inst-machines", "fields", "gets-the-next-id-and-is-appended", "machine-table-keeps-its-rows",
               "single-machine-operation-nodes-listed-under-their-machine", "G-shape", "G-node-ids", "T-sizes", "T-layout",
